@@ -133,7 +133,67 @@ MUTANTS = [
       "                                                  backoffer, False))\n            return d2\n",
       "            d2.addCallback(lambda ignored:\n                           self._modify_and_retry(modifier,\n"
       "                                                  backoffer, False))\n", "C13.6"),
+    # sweep survivors (callback that carries the work is dropped / detached from the returned Deferred)
+    M("modify-once-apply-never-attached", FN,
+      "            return self._upload(new_contents)\n        d.addCallback(_apply)\n        return d\n",
+      "            return self._upload(new_contents)\n        return d\n", "C13.6"),
+    M("download-retry-never-attached", FN,
+      "        d.addErrback(_maybe_retry)\n        return d\n", "        return d\n", "C13.6"),
+    M("modify-retry-on-detached-deferred", FN,
+      "        d.addErrback(_retry)\n        return d\n",
+      "        conflicts = defer.Deferred()\n        conflicts.addErrback(_retry)\n        d.addErrback(conflicts.errback)\n"
+      "        return d\n", "C13.6"),
+    M("modify-once-apply-run-by-helper-unawaited", FN,
+      "            return self._upload(new_contents)\n        d.addCallback(_apply)\n        return d\n",
+      "            return self._upload(new_contents)\n        d.addCallback(lambda old: defer.maybeDeferred(_apply, old) and None)\n"
+      "        return d\n", "C13.6"),
+    M("update-publish-on-detached-deferred", FN,
+      "        d.addCallback(self._build_uploadable_and_finish, data, offset)\n        return d\n",
+      "        publishing = defer.Deferred()\n        publishing.addCallback(self._build_uploadable_and_finish, data, offset)\n"
+      "        d.addCallback(publishing.callback)\n        return d\n", "C13.6"),
+    # ---- C13.7 directory operations cover the edits they start
+    M("set-uri-does-not-return-deferred", DN,
+      "        d.addCallback(lambda res: child_node)\n        return d\n",
+      "        d.addCallback(lambda res: child_node)\n        return None\n", "C13.7"),
+    M("move-child-does-not-return-deferred", DN,
+      "        d.addCallback(lambda child: self.delete(current_child_name))\n        return d\n",
+      "        d.addCallback(lambda child: self.delete(current_child_name))\n        return None\n", "C13.7"),
+    M("create-subdirectory-link-never-attached", DN,
+      "            return d\n        d.addCallback(_created)\n        return d\n",
+      "            return d\n        return d\n", "C13.7"),
+    M("create-subdirectory-returns-early", DN,
+      "            return d\n        d.addCallback(_created)\n        return d\n",
+      "            return d\n        d.addCallback(_created)\n        return defer.succeed(None)\n", "C13.7"),
+    M("add-file-link-not-awaited", DN,
+      "                d.addCallback(lambda node:\n                              self.set_node(name, node, metadata, overwrite))\n",
+      "                def _link(node):\n                    self.set_node(name, node, metadata, overwrite)\n"
+      "                    return node\n                d.addCallback(_link)\n", "C13.7"),
+    M("add-file-does-not-return-deferred", DN,
+      "        return d.addActionFinish()\n\n    def delete(",
+      "        d.addActionFinish()\n\n    def delete(", "C13.7"),
+    M("move-child-unlink-in-tuple", DN,
+      "        d.addCallback(lambda child: self.delete(current_child_name))\n",
+      "        d.addCallback(lambda child: (self.delete(current_child_name), child)[1])\n", "C13.7"),
     # ---- benign
+    M("benign-modify-once-chained-return", FN,
+      "            return self._upload(new_contents)\n        d.addCallback(_apply)\n        return d\n",
+      "            return self._upload(new_contents)\n        return d.addCallback(_apply)\n", None),
+    M("benign-update-chained-return", FN,
+      "        d.addCallback(self._build_uploadable_and_finish, data, offset)\n        return d\n",
+      "        return d.addCallback(self._build_uploadable_and_finish, data, offset)\n", None),
+    M("benign-retry-through-alias", FN,
+      "        d.addErrback(_retry)\n        return d\n",
+      "        on_conflict = _retry\n        d.addErrback(on_conflict)\n        return d\n", None),
+    M("benign-set-uri-chained-return", DN,
+      "        d = self.set_node(namex, child_node, metadata, overwrite)\n        d.addCallback(lambda res: child_node)\n"
+      "        return d\n",
+      "        return self.set_node(namex, child_node, metadata, overwrite).addCallback(lambda res: child_node)\n", None),
+    M("benign-create-subdirectory-second-name", DN,
+      "            return d\n        d.addCallback(_created)\n        return d\n",
+      "            return d\n        d2 = d.addCallback(_created)\n        return d2\n", None),
+    M("benign-move-child-named-lambda", DN,
+      "        d.addCallback(lambda child: self.delete(current_child_name))\n",
+      "        unlink = lambda child: self.delete(current_child_name)\n        d.addCallback(unlink)\n", None),
     M("benign-upload-chained-return", FN,
       "        d = p.publish(new_contents)\n        d.addCallback(self._did_upload, new_contents.get_size())\n        return d\n"
       "\n\n    def _did_upload(self, res, size):\n        self._most_recent_size = size\n        return res\n\n    def update(",
